@@ -740,10 +740,20 @@ def classify(form, vals, real, orc, emitted=None):
     k = form[0]
     em = emitted if emitted is not None else set()
     d11_op = {"__floordiv__": "arithmetic.int.idiv_s", "__mod__": "arithmetic.int.imod_s", "__divmod__": "arithmetic.int.idivmod_s"}
+    # ... and to the VALUE the documented defect predicts (the counter-semantics of the `_partial` theorems): a different wrong
+    # result for the same operands is a second defect and stays a VIOLATION keyed by the input
     if ty == "int" and dn in d11_op and vals[1] < 0 and (emitted is None or d11_op[dn] in em):
-        return f"op:int.{dn}:negative-divisor"
+        a_s, m = wrapS(int(vals[0])), int(vals[1]) % P64          # dividend read signed, divisor read UNSIGNED
+        q, r = a_s // m, a_s % m
+        exp = {"__floordiv__": ("int", wrapS(q)), "__mod__": ("int", wrapS(r)),
+               "__divmod__": ("tup", ("int", wrapS(q)), ("int", wrapS(r)))}[dn]
+        if same(real, exp):
+            return f"op:int.{dn}:negative-divisor"
+        return None
     if ty == "int" and dn == "__rshift__" and vals[0] < 0 and (emitted is None or "arithmetic.int.ishr" in em):
-        return "op:int.__rshift__:negative-left-operand"
+        if 0 <= vals[1] < 64 and same(real, ("int", wrapS((int(vals[0]) % P64) >> int(vals[1])))):   # LOGICAL shift of the 64-bit pattern
+            return "op:int.__rshift__:negative-left-operand"
+        return None
     if ty == "float" and dn in ("__floordiv__", "__mod__", "__divmod__"):
         a, b = float(vals[0]), float(vals[1])
         try:
@@ -768,7 +778,14 @@ def classify(form, vals, real, orc, emitted=None):
     if k == "bin" and form[1] in CMPS and "float" in (form[2], form[3]) and (form[2] in ("int", "nat") or form[3] in ("int", "nat")):
         iv = vals[0] if form[2] != "float" else vals[1]
         if abs(iv) > P53:
-            return "op:mixed-int-float-compare:integer-rounded-first"
+            import operator as _o
+            f = {"==": _o.eq, "!=": _o.ne, "<": _o.lt, "<=": _o.le, ">": _o.gt, ">=": _o.ge}[form[1]]
+            try:
+                exp = ("bool", f(float(vals[0]), float(vals[1])))       # the integer operand rounded to double FIRST
+            except OverflowError:
+                return None
+            if same(real, exp):
+                return "op:mixed-int-float-compare:integer-rounded-first"
     return None
 
 
